@@ -496,3 +496,23 @@ def source_hints(repo=None):
                 continue
             new.append({'function': fn, 'value': v})
     return Hints(new)
+
+
+import contextlib
+
+
+@contextlib.contextmanager
+def no_probe():
+    """sections that count or spy the implementation's internal calls switch the memo probes (harness/probe.py) off: a probe adds calls"""
+    try:
+        import probe as _p
+        prev = _p.ST.enabled
+        _p.ST.enabled = False
+    except Exception:  # noqa
+        _p = None
+        prev = False
+    try:
+        yield
+    finally:
+        if _p is not None:
+            _p.ST.enabled = prev
